@@ -141,7 +141,7 @@ func (o *Out) Emit(v any) {
 	o.w.WriteByte('\n')
 	o.N++
 }
-func (o *Out) Close() { o.w.Flush(); o.f.Close() }
+func (o *Out) Close()            { o.w.Flush(); o.f.Close() }
 func (o *Out) Writer() io.Writer { return o.w }
 
 // Outcome classifies what a call into gonum did.
